@@ -454,6 +454,15 @@ def make_filter(spec):
         items = []
         for i, n in enumerate(names):
             items.append([n, ReadyOperationsFilterType(n), funcs[n]][i % 3])
+    # the factory takes any iterable: a list, a tuple, a one-shot generator or map object
+    # (chosen deterministically from the spec, so that a case replays)
+    shape = (len(names) + len(form) + sum(map(len, names))) % 5
+    if shape == 1:
+        items = tuple(items)
+    elif shape == 2:
+        items = (x for x in items)
+    elif shape == 3:
+        items = map(lambda x: x, items)
     return create_composite_operation_filter(items)
 
 
